@@ -36,7 +36,7 @@ ASSUMPTIONS = [
     'plus Dortmund + IdealGasPoyintingCorrectionFactors on the subsets of (Water, Ethanol, Methanol)',
     'compositions: simplex grid step 1/4 incl. zero components and vertices, plus 1e-8 trace entries, plus one dominant component with a trace at 1e-17 / 1e-16 / 1e-15 in every ordered pair '
     'of positions (quick: 1e-17 and one seed-rotated other level); the list (SO2, Ethanol, Methanol) adds a volatile member without group data in every position; T in {260,300,350,400,480} K intersected with '
-    'every listed chemical\'s Psat range; P in {5e3, 101325, 1e6, 3e6} Pa; scale k in {0.5, 2, 10, 1e-17, 1e-12, 1e6, 1e12} (quick: one seed-rotated of the first three + 1e-17 + 1e12); nothing is claimed between grid points',
+    'every listed chemical\'s Psat range, plus 0.5 / 5 / 10 K inside each end of that range that lies within 260-480 K (lists with Benzene, Cyclohexane, 1-Butanol, SO2); P in {5e3, 101325, 1e6, 3e6} Pa; scale k in {0.5, 2, 10, 1e-17, 1e-12, 1e6, 1e12} (quick: one seed-rotated of the first three + 1e-17 + 1e12); nothing is claimed between grid points',
     'quick tier (activity-coefficient package): core clauses on the full T and P grids; scale and permutation clauses at one seed-rotated T and one seed-rotated P '
     'with one seed-rotated k; lists of 4 are permuted by rotations and reversal only.  The ideal package and the thorough tier use the full sets.',
     'a P-specified case is judged only if the harness\' own residual changes sign between the ends of the temperature domain (the bubble/dew temperature lies inside the quantifier)',
@@ -59,6 +59,7 @@ FAMILIES = {
     'ALC': ('Methanol', 'Ethanol', 'Propanol', '1-Butanol'),
     'HC': ('Hexane', 'Heptane', 'Octane', 'Benzene', 'Toluene'),
     'WEM': ('Water', 'Ethanol', 'Methanol'),
+    'LATE': ('Benzene', 'Cyclohexane', '1-Butanol'),   # every vapour-pressure model starts late (278.7, 279.9, 275.0 K): the vle domain's lower end is inside 260-480 K
     'NG': ('SO2', 'Ethanol', 'Methanol'),        # SO2: volatile, NO Dortmund/UNIFAC groups (gamma = 1 by the no-group rule), listed in every position by the perm clause
 }
 T_GRID = (260.0, 300.0, 350.0, 400.0, 480.0)
@@ -66,6 +67,7 @@ P_GRID = (5e3, 101325.0, 1e6, 3e6)
 K_GRID = (0.5, 2.0, 10.0)
 K_EXTREME = (1e-17, 1e-12, 1e6, 1e12)        # totals far below / above 1 ("unnormalised compositions z and k*z")
 DEEP_TRACE = (1e-17, 1e-16, 1e-15)            # trace levels around machine precision
+EDGE_OFFSETS = (0.5, 5.0, 10.0)               # temperatures just inside the ends of a list's common vapour-pressure range
 T_LO, T_HI = 260.0, 480.0
 TRACE = 1e-8
 
@@ -93,26 +95,24 @@ def _load():
             flx.IQ_interpolation = counted
     return _eq
 
-def _caches():
-    """every class-level interning cache a bubble/dew point can reach (process-global state, DESIGN 1.2): owned by the harness"""
-    eq = _load()
-    from thermosteam.equilibrium import activity_coefficients as ac
-    return [eq.BubblePoint._cached, eq.DewPoint._cached, ac.DortmundActivityCoefficients._cached,
-            ac.UNIFACActivityCoefficients._cached, ac.NISTActivityCoefficients._cached]
+def _owned():
+    """process-global mutable state of thermosteam.equilibrium.* (interning caches of BubblePoint / DewPoint / the model classes and
+    any other small module- or class-level container): owned by the harness, see mc/systems/c16.py:OwnedGlobals"""
+    _load()
+    from mc.systems.c16 import OWNED
+    OWNED.capture()
+    return OWNED
 
 def clear_caches():
-    for c in _caches(): c.clear()
+    _owned().restore()
 
 class isolated:
-    """run a block with EMPTY interning caches and put the explored caches back afterwards (reference evaluations and
-    fresh twins must neither see nor disturb the state under exploration)"""
+    """run a block on the import-time content of every owned container (empty interning caches) and put the explored content back
+    afterwards (reference evaluations and fresh twins must neither see nor disturb the state under exploration)"""
     def __enter__(self):
-        self.saved = [(c, dict(c)) for c in _caches()]
-        for c, _ in self.saved: c.clear()
+        self.b = _owned().bracket(); self.b.__enter__()
     def __exit__(self, *exc):
-        for c, d in self.saved:
-            c.clear(); c.update(d)
-        return False
+        return self.b.__exit__(*exc)
 
 def _thermo(pkg, ids):
     _load()
@@ -333,7 +333,10 @@ class Grid(System):
         for pkg in self.pkgs:
             for ids in self._lists(tier):
                 lo, hi = domain(_chems(ids))
-                for T in Ts:
+                # the ends of the common Psat range, when they lie inside 260-480 K, are sampled from just inside
+                edge = [lo + d for d in EDGE_OFFSETS if lo > T_LO] + [hi - d for d in EDGE_OFFSETS if hi < T_HI]
+                if not full: edge = [t for t, d in zip(edge, EDGE_OFFSETS * 2) if d != EDGE_OFFSETS[1 + seed % 2]] if len(ids) >= 4 else edge
+                for T in list(Ts) + [round(t, 6) for t in edge if lo <= t <= hi]:
                     if lo <= T <= hi:
                         cfgs.append((pkg, ids, 'T', T, T in relT, tuple(ks), full, tuple(levels)))
                 for P in Ps:
@@ -650,7 +653,7 @@ class History(System):
         gps = tuple(sorted((tuple(c.ID for c in k), tuple(fx.r12(v) for v in np.asarray(g._group_psis).ravel()))
                            for k, g in ac.DortmundActivityCoefficients._cached.items() if isinstance(k, tuple)))
         held = tuple((a, fx.r12(T), fx.r12(P), tuple(fx.r12(v) for v in snap)) for a, r, T, P, snap in st.held)
-        return (st.ids, cache_digest(), gps, held)
+        return (st.ids, cache_digest(), gps, held, _owned().digest())
 
     def invariants(self, st):
         eq = _load()
@@ -735,7 +738,7 @@ class Intern(System):
         return st
 
     def canon(self, st):
-        return (st.ids, cache_digest())
+        return (st.ids, cache_digest(), _owned().digest())
 
     def actions(self, st):
         return [(p, pi, kind, si) for p in ('ideal', 'dortmund') for pi in range(len(st.perms)) for kind in ('bubble', 'dew')
